@@ -1,37 +1,108 @@
 --------------------------- MODULE PartitionProof ---------------------------
 (***************************************************************************)
 (* TLAPS proofs about PartitionAlg: the invariant Inv (cursor safety, loop *)
-(* invariant, never "panic", arrangement clauses at return) is inductive   *)
-(* for arrays of every length, every integer contents and every in-range   *)
-(* pivot position.      tlapm PartitionProof.tla   (about 10 s)            *)
+(* invariant, "panic" exactly for an out-of-range pivot position,          *)
+(* arrangement clauses at return, and - through a ghost permutation - the  *)
+(* array is always a rearrangement of the original one) is inductive for   *)
+(* arrays of every length, every integer contents and every pivot          *)
+(* position.      tlapm PartitionProof.tla                                 *)
 (***************************************************************************)
 EXTENDS PartitionAlg, TLAPS
 
-LEMMA InitInv == Init => Inv
-  BY DEF Assumptions, params, Init, Inv, TypeOK, InRange, NoPanicInRange, OorInv, CursorInv, LoopInv, Post, StartOK, Running, Idx
+USE DEF Assumptions, params, InRange, Running, Idx
 
-LEMMA StartInv == Inv /\ Start => Inv'
-  BY DEF Assumptions, params, Inv, Start, TypeOK, InRange, NoPanicInRange, OorInv, CursorInv, LoopInv, Post, StartOK, Running, Idx, Swap
+LEMMA InitCore == Init => Core
+  BY DEF Init, Core, TypeOK, NoPanicInRange, OorInv, CursorInv, LoopInv, Post, StartOK
+LEMMA StartCore == Core /\ Start => Core'
+  BY DEF Core, Start, TypeOK, NoPanicInRange, OorInv, CursorInv, LoopInv, Post, StartOK, Swap
+LEMMA StepICore == Core /\ StepI => Core'
+  BY DEF Core, StepI, TypeOK, NoPanicInRange, OorInv, CursorInv, LoopInv, Post, StartOK
+LEMMA StepJCore == Core /\ StepJ => Core'
+  BY DEF Core, StepJ, TypeOK, NoPanicInRange, OorInv, CursorInv, LoopInv, Post, StartOK
+LEMMA CmpCore == Core /\ Cmp => Core'
+  BY DEF Core, Cmp, TypeOK, NoPanicInRange, OorInv, CursorInv, LoopInv, Post, StartOK, Swap
+LEMMA StutterCore == Core /\ UNCHANGED vars => Core'
+  BY DEF Core, vars, TypeOK, NoPanicInRange, OorInv, CursorInv, LoopInv, Post, StartOK
 
-LEMMA StepIInv == Inv /\ StepI => Inv'
-  BY DEF Assumptions, params, Inv, StepI, TypeOK, InRange, NoPanicInRange, OorInv, CursorInv, LoopInv, Post, StartOK, Running, Idx
+LEMMA InitPerm == Init => PermInv
+  BY DEF Init, PermInv
 
-LEMMA StepJInv == Inv /\ StepJ => Inv'
-  BY DEF Assumptions, params, Inv, StepJ, TypeOK, InRange, NoPanicInRange, OorInv, CursorInv, LoopInv, Post, StartOK, Running, Idx
+LEMMA StartPerm == Inv /\ Start => PermInv'
+  <1> SUFFICES ASSUME Inv, Start PROVE PermInv'
+    OBVIOUS
+  <1>0. arr \in [Idx -> Int] /\ Arr0 \in [Idx -> Int] /\ Arr0' = Arr0 /\ Len0' = Len0 /\ PermInv
+    BY DEF Inv, Core, TypeOK, Start
+  <1>a. CASE P0 >= Len0
+    BY <1>0, <1>a DEF Start, PermInv
+  <1>b. CASE ~(P0 >= Len0)
+    <2>1. arr' = Swap(arr, P0, 0) /\ perm' = Swap(perm, P0, 0) /\ P0 \in Idx /\ 0 \in Idx
+      BY <1>b DEF Start, Inv, Core, TypeOK
+    <2>2. /\ perm \in [Idx -> Idx] /\ (\A u \in Idx : \A v \in Idx : u # v => perm[u] # perm[v]) /\ (\A u \in Idx : arr[u] = Arr0[perm[u]])
+      BY <1>0 DEF PermInv
+    <2>3. /\ Swap(perm, P0, 0) \in [Idx -> Idx]
+          /\ \A u \in Idx : \A v \in Idx : u # v => Swap(perm, P0, 0)[u] # Swap(perm, P0, 0)[v]
+          /\ \A u \in Idx : Swap(arr, P0, 0)[u] = Arr0[Swap(perm, P0, 0)[u]]
+      <3> HIDE DEF Idx
+      <3> QED BY <1>0, <2>1, <2>2 DEF Swap
+    <2> QED BY <1>0, <2>1, <2>3 DEF PermInv
+  <1> QED BY <1>a, <1>b
 
-LEMMA CmpInv == Inv /\ Cmp => Inv'
-  BY DEF Assumptions, params, Inv, Cmp, TypeOK, InRange, NoPanicInRange, OorInv, CursorInv, LoopInv, Post, StartOK, Running, Idx, Swap
+LEMMA CmpPerm == Inv /\ Cmp => PermInv'
+  <1> SUFFICES ASSUME Inv, Cmp PROVE PermInv'
+    OBVIOUS
+  <1>0. arr \in [Idx -> Int] /\ Arr0 \in [Idx -> Int] /\ Arr0' = Arr0 /\ Len0' = Len0 /\ PermInv /\ pc = "Cmp"
+        /\ i \in Int /\ j \in Int /\ 1 <= i /\ i <= Len0 /\ 0 <= j /\ j <= Len0 - 1 /\ Len0 \in Nat
+    BY DEF Inv, Core, TypeOK, CursorInv, Cmp
+  <1>a. CASE i >= j
+    <2>1. arr' = Swap(arr, 0, i - 1) /\ perm' = Swap(perm, 0, i - 1) /\ 0 \in Idx /\ i - 1 \in Idx
+      BY <1>0, <1>a DEF Cmp
+    <2>2. /\ perm \in [Idx -> Idx] /\ (\A u \in Idx : \A v \in Idx : u # v => perm[u] # perm[v]) /\ (\A u \in Idx : arr[u] = Arr0[perm[u]])
+      BY <1>0 DEF PermInv
+    <2>3. /\ Swap(perm, 0, i - 1) \in [Idx -> Idx]
+          /\ \A u \in Idx : \A v \in Idx : u # v => Swap(perm, 0, i - 1)[u] # Swap(perm, 0, i - 1)[v]
+          /\ \A u \in Idx : Swap(arr, 0, i - 1)[u] = Arr0[Swap(perm, 0, i - 1)[u]]
+      <3> HIDE DEF Idx
+      <3> QED BY <1>0, <2>1, <2>2 DEF Swap
+    <2> QED BY <1>0, <2>1, <2>3 DEF PermInv
+  <1>b. CASE ~(i >= j)
+    <2>1. arr' = Swap(arr, i, j) /\ perm' = Swap(perm, i, j) /\ i \in Idx /\ j \in Idx
+      BY <1>0, <1>b DEF Cmp
+    <2>2. /\ perm \in [Idx -> Idx] /\ (\A u \in Idx : \A v \in Idx : u # v => perm[u] # perm[v]) /\ (\A u \in Idx : arr[u] = Arr0[perm[u]])
+      BY <1>0 DEF PermInv
+    <2>3. /\ Swap(perm, i, j) \in [Idx -> Idx]
+          /\ \A u \in Idx : \A v \in Idx : u # v => Swap(perm, i, j)[u] # Swap(perm, i, j)[v]
+          /\ \A u \in Idx : Swap(arr, i, j)[u] = Arr0[Swap(perm, i, j)[u]]
+      <3> HIDE DEF Idx
+      <3> QED BY <1>0, <2>1, <2>2 DEF Swap
+    <2> QED BY <1>0, <2>1, <2>3 DEF PermInv
+  <1> QED BY <1>a, <1>b
 
-LEMMA StutterInv == Inv /\ UNCHANGED vars => Inv'
-  BY DEF Assumptions, params, Inv, vars, TypeOK, InRange, NoPanicInRange, OorInv, CursorInv, LoopInv, Post, StartOK, Running, Idx
+LEMMA KeepPerm == ASSUME PermInv, UNCHANGED <<arr, perm, Arr0, Len0>> PROVE PermInv'
+  BY DEF PermInv
 
 THEOREM Safety == Spec => []Inv
   <1>1. Inv /\ [Next]_vars => Inv'
-    BY StartInv, StepIInv, StepJInv, CmpInv, StutterInv DEF Next
-  <1>. QED  BY InitInv, <1>1, PTL DEF Spec
+    <2> SUFFICES ASSUME Inv, [Next]_vars PROVE Inv'
+      OBVIOUS
+    <2>1. Core /\ PermInv
+      BY DEF Inv
+    <2>a. CASE Start
+      BY <2>1, <2>a, StartCore, StartPerm DEF Inv
+    <2>b. CASE StepI
+      BY <2>1, <2>b, StepICore, KeepPerm DEF Inv, StepI
+    <2>c. CASE StepJ
+      BY <2>1, <2>c, StepJCore, KeepPerm DEF Inv, StepJ
+    <2>d. CASE Cmp
+      BY <2>1, <2>d, CmpCore, CmpPerm DEF Inv
+    <2>e. CASE UNCHANGED vars
+      BY <2>1, <2>e, StutterCore, KeepPerm DEF Inv, vars
+    <2> QED BY <2>a, <2>b, <2>c, <2>d, <2>e DEF Next
+  <1>2. Init => Inv
+    BY InitCore, InitPerm DEF Inv
+  <1>. QED  BY <1>1, <1>2, PTL DEF Spec
 
-(* C15 in words: no panic, and the arrangement at return *)
+(* C15 / C16 in words *)
 THEOREM NeverPanics == Spec => [](P0 < Len0 => pc # "panic")
-  <1>1. Inv => (P0 < Len0 => pc # "panic")  BY DEF Inv, NoPanicInRange, InRange
+  <1>1. Inv => (P0 < Len0 => pc # "panic")  BY DEF Inv, Core, NoPanicInRange
   <1>. QED  BY Safety, <1>1, PTL
 =============================================================================
